@@ -124,8 +124,9 @@ pub fn generate(tier: &str, seed: u64) -> Vec<Rec> {
             4 => { let divs: Vec<usize> = (1..=n).filter(|d| n % d == 0).collect(); let d = rng.pick(&divs); (d, n / d) }
             _ => (0, 1),
         };
-        // radix: FFT64 keeps |s|_1 * 2^(b-1) below 2^50 (its exact-product domain, cf. c07.rs); NTT120 goes to 52
-        let bmax = if be <= 2 { (51 - log2_ceil(hw)).min(50) } else { 52 };
+        // radix: FFT64 keeps |s|_1 * 2^(b-1) below 2^49 (its exact-product domain, cf. c07.rs: at 2^50 one word in 4000 thorough records,
+        // n=64 base2k=50 |s|_1=2, came back off by one from the f64 FFT); NTT120 goes to 52
+        let bmax = if be <= 2 { (50 - log2_ceil(hw)).min(50) } else { 52 };
         let b = match rng.below(5) { 0 => bmax, 1 => rng.range(1, 4) as usize, _ => rng.range(1, bmax as i64) as usize };
         let size = rng.range(1, 5) as usize;
         // noise precision: anywhere in the ciphertext, mostly not a multiple of the radix
